@@ -75,6 +75,43 @@ Theorem C04_bottomup_refuted : exists parts, Forall plain parts /\ In EvRemote (
 Proof. exact bottomup_refuted. Qed.
 Print Assumptions C04_bottomup_refuted.
 
+(* Computed: register_x / unregister_x change the shared class-level registries in place (no serializer subclass ever
+   gets a registry of its own). *)
+Theorem C04_registries_inplace : reg_d2c_inplace && reg_c2d_inplace = true.
+Proof. exact gen_registries_inplace. Qed.
+Print Assumptions C04_registries_inplace.
+
+(* registry_histories: for ALL histories of register / unregister calls (either registry, through Pyro5.api /
+   SerializerBase or through any concrete serializer class, in any order) and every serializer: the registry that
+   serializer consults holds exactly the tags whose last call was a register. *)
+Theorem C04_registry_histories : forall k h s t, mem t (gen_effective k h s) = currently_registered k h t.
+Proof. exact gen_registry_histories. Qed.
+Print Assumptions C04_registry_histories.
+
+(* only_registry_escapes over histories: after any history, decoding with any serializer runs the application's
+   converter for a tag iff that tag is currently registered. *)
+Theorem C04_only_registry_escapes_hist : forall h ser,
+  (forall tag flag imps t, gen_decide (gen_effective KD2C h ser) tag flag = (imps, ACustom t) -> currently_registered KD2C h t = true) /\
+  (forall s flag, currently_registered KD2C h s = true -> gen_decide (gen_effective KD2C h ser) (VStr s) flag = ([], ACustom s)).
+Proof. exact gen_only_registry_escapes_hist. Qed.
+Print Assumptions C04_only_registry_escapes_hist.
+
+(* recreate_types over histories: whole payloads, any history first; converters run only for currently registered tags *)
+Theorem C04_recreate_types_hist : forall h ser call parts,
+  Forall plain parts ->
+  let reg := gen_effective KD2C h ser in
+  Forall (event_ok gen_env reg) (fst (gen_run reg ser call parts)) /\
+  (forall t, In (EvConverter t) (fst (gen_run reg ser call parts)) -> currently_registered KD2C h t = true) /\
+  forall out, snd (gen_run reg ser call parts) = Ok out -> Forall (vall (class_ok gen_env reg)) out.
+Proof. exact gen_recreate_types_hist. Qed.
+Print Assumptions C04_recreate_types_hist.
+
+(* the defective variant (registries rebound through cls): register via JsonSerializer, unregister via the api —
+   the json serializer still has the converter although the tag is not registered any more. *)
+Theorem C04_rebind_refuted : exists h s t, mem t (effective false KD2C h s) = true /\ currently_registered KD2C h t = false.
+Proof. exact rebind_refuted. Qed.
+Print Assumptions C04_rebind_refuted.
+
 (* non-vacuity: a payload that builds objects, one that is refused, one that reaches the converter *)
 Example C04_nonvacuous_builds :
   snd (gen_run [] 3 false [VList [proxy_dict; VDict [VStr dtc_tagkey; VStr (txt "__exception__"); VStr mkexc_argskey]
@@ -86,6 +123,13 @@ Example C04_nonvacuous_refused :
   gen_decide [] (VStr (txt "builtins.__import__")) (fun _ => true) = ([], AReject ESecurity) /\
   snd (gen_decide [] (VStr (txt "os.system")) (fun _ => true)) = AReject ESerialize /\
   snd (gen_decide [] (VStr (txt "builtins.open")) (fun _ => true)) = AReject ETypeError.
+Proof. vm_compute. auto. Qed.
+Example C04_nonvacuous_history :
+  let h := [ {| op_add := true; op_ep := EpSer 3; op_kind := KD2C; op_tag := txt "a.B" |};
+             {| op_add := true; op_ep := EpBase; op_kind := KD2C; op_tag := txt "c.D" |};
+             {| op_add := false; op_ep := EpBase; op_kind := KD2C; op_tag := txt "a.B" |} ] in
+  currently_registered KD2C h (txt "c.D") = true /\ currently_registered KD2C h (txt "a.B") = false /\
+  gen_effective KD2C h 3 = [txt "c.D"] /\ gen_effective KD2C h 1 = [txt "c.D"].
 Proof. vm_compute. auto. Qed.
 Example C04_nonvacuous_registry :
   gen_decide [txt "my.__Special__"] (VStr (txt "my.__Special__")) (fun _ => false) = ([], ACustom (txt "my.__Special__")).
